@@ -202,19 +202,46 @@ def msgidn (R : List RPart) (singular : Bool) : Option Bytes :=
 def msgid (R : List RPart) : Option Bytes := msgidn R true
 def msgidPlural (R : List RPart) : Option Bytes := msgidn R false
 
-/-- `Validate`: `true` = nil error -/
+/-- `placeholderLike.Find(text) != nil`: some position starts a `{[A-Z0-9_]+}` -/
+def containsPh : Bytes → Bool
+  | [] => false
+  | b :: r => (matchPh (b :: r)).isSome || containsPh r
+
+/-- the buffer `validateText` builds: raw texts concatenated, a NUL for every other child -/
+def litText : List RPart → Bytes
+  | [] => []
+  | .text t :: r => t ++ litText r
+  | _ :: r => 0 :: litText r
+
+/-- `validateText`: `true` = nil error -/
+def validateText (body : List RPart) : Bool := !containsPh (litText body)
+
+/-- the loop of `Validate` over the children -/
 def validateFrom : Nat → List RPart → Bool
   | _, [] => true
-  | i, .plural _ _ cs _ :: r =>
-    (i == 0) && (match cs with | [(v, _)] => v == 1 | _ => false) && validateFrom (i + 1) r
+  | i, .plural _ _ cs d :: r =>
+    (i == 0) && (match cs with | [(v, b)] => v == 1 && validateText b | _ => false) && validateText d
+      && validateFrom (i + 1) r
   | i, _ :: r => validateFrom (i + 1) r
 
-def validate (R : List RPart) : Bool := validateFrom 0 R
+/-- `Validate`: `true` = nil error -/
+def validate (R : List RPart) : Bool := validateFrom 0 R && validateText R
 
 /-- `newMessage(id, varName, msgstrs)` (the parts) -/
 def newMessage (varName : Bytes) (msgstrs : List Bytes) : List TPart :=
   match varName, msgstrs with
   | [], [s] => liftParts (parts s)
   | _, _ => [.plural varName (msgstrs.map fun s => liftParts (parts s))]
+
+/-- `untranslated(msg.Str)`: every msgstr is empty -/
+def untranslated (msgstrs : List Bytes) : Bool := msgstrs.all (·.isEmpty)
+
+/-- one PO entry in `newBundle`: untranslated entries are left out of the bundle -/
+def loadEntry (varName : Bytes) (msgstrs : List Bytes) : Option (List TPart) :=
+  if untranslated msgstrs then none else some (newMessage varName msgstrs)
+
+/-- the bundle `newBundle` builds from a catalogue with one entry -/
+def poBundle (id : UInt64) (varName : Bytes) (msgstrs : List Bytes) (sel : Int → Int) : Bundle :=
+  ⟨fun i => if i == id then loadEntry varName msgstrs else none, sel⟩
 
 end SoyVerif.Model.Msg
